@@ -3869,7 +3869,7 @@ class NetCDFWrite(IOWrite):
             if formula_terms:
                 ncvar = g["key_to_ncvar"][owning_coord_key]
                 formula_terms = " ".join(formula_terms)
-                if not g["dry_run"] and not g["post_dry_run"]:
+                if not g["dry_run"]:
                     try:
                         g["nc"][ncvar].setncattr(
                             "formula_terms", formula_terms
@@ -3887,7 +3887,7 @@ class NetCDFWrite(IOWrite):
                 bounds_ncvar = g["bounds"].get(ncvar)
                 if bounds_ncvar is not None:
                     bounds_formula_terms = " ".join(bounds_formula_terms)
-                    if not g["dry_run"] and not g["post_dry_run"]:
+                    if not g["dry_run"]:
                         try:
                             g["nc"][bounds_ncvar].setncattr(
                                 "formula_terms", bounds_formula_terms
